@@ -9,6 +9,10 @@ EXC = {1: "E1", 2: "E2", 3: "E3", 10: "NameError", 11: "TypeError", 12: "ZeroDiv
        13: "UnboundLocalError", 14: "IndexError", 15: "ValueError"}
 
 
+# string values of the abstract universe: id -> text (ids 2, 3 are Python keywords on purpose)
+STRS = {0: "", 1: "s1", 2: "class", 3: "import"}
+
+
 class T:
     """Program tree node: kind, a (int or str), children, extras."""
     __slots__ = ("k", "a", "ch", "x")
@@ -38,7 +42,7 @@ def pyval(v):
     if tag == "int":
         return str(n)
     if tag == "str":
-        return '""' if n == 0 else f'"s{n}"'
+        return '"' + STRS[n] + '"'
     if tag == "list":
         return "[" + " ".join(pyval(x) for x in items) + "]"
     if tag == "tuple":
@@ -58,7 +62,7 @@ def topy(v):
     if tag == "int":
         return n
     if tag == "str":
-        return "" if n == 0 else f"s{n}"
+        return STRS[n]
     if tag == "list":
         return [topy(x) for x in items]
     if tag == "tuple":
@@ -75,7 +79,7 @@ def proj(o, G):
     if isinstance(o, int):
         return ["int", o, []]
     if isinstance(o, str):
-        return ["str", 0 if o == "" else int(o[1:]) if o[1:].isdigit() else 99, []]
+        return ["str", next((k for k, v in STRS.items() if v == o), 99), []]
     if isinstance(o, list):
         return ["list", 0, [proj(x, G) for x in o]]
     if isinstance(o, tuple):
